@@ -35,7 +35,6 @@ import ctypes
 import math
 import os
 import re
-import struct
 
 import yaml
 
@@ -762,7 +761,7 @@ def run_definition(spec, args, budget=DEFAULT_BUDGET, unsigned_wrap=False):
         res.status = "rejected"
         res.reason = "division-by-zero"
         res.detail = str(e)
-    except RecursionError as e:
+    except RecursionError:
         res.status = "rejected"
         res.reason = "iteration-budget"
         res.detail = "recursion"
